@@ -107,6 +107,29 @@ class Ctx:
         self.findings = load_findings()
         self.is_replay = False
 
+    # -- sub-contexts: let independent pipelines run concurrently (C07 runs every family) -----------
+    def child(self, label):
+        c = Ctx.__new__(Ctx)
+        c.__dict__.update(self.__dict__)
+        c.work = os.path.join(self.work, label)
+        os.makedirs(c.work, exist_ok=True)
+        c.states = c.transitions = c.traces = c.events = 0
+        c.mc_runs, c.distinct, c.samples, c.rejections = [], set(), [], []
+        c.assumptions, c.notes, c.apalache, c.extra = [], [], [], {}
+        c.label = label
+        return c
+
+    def merge(self, c):
+        self.states += c.states
+        self.transitions += c.transitions
+        self.traces += c.traces
+        self.events += c.events
+        self.mc_runs += c.mc_runs
+        self.distinct |= {hash((c.label, h)) for h in c.distinct}
+        self.samples += c.samples[:1]
+        self.apalache += c.apalache
+        self.extra.setdefault("components", {})[c.label] = dict(c.extra, events=c.events, executions=c.traces)
+
     # -- exhaustive model checking --------------------------------------------------------
     def mc(self, module, cfg, workers=4, env=None, timeout=1800, need_actions=None, heap="6g", stim_out=None):
         """Exhaustive TLC run of a model; an invariant violation here is a defect of the model
